@@ -181,6 +181,28 @@ func c10Provocations(c *Ctx) map[string]func() string {
 			return strings.ReplaceAll(txt+fmt.Sprint(" / ", err), fdir, "$D")
 		}
 	}
+	// comments around map / struct entries that share a source line (the formatter attaches a comment to
+	// the first sub-node on the following line; sub-nodes of a literal come from a Go map)
+	{
+		srcs := map[string]string{
+			"before same-line map entries":    "    m = {\n        # about these\n        \"a\": 1, \"b\": 2, \"c\": 3, \"d\": 4, \"e\": 5, \"f\": 6,\n    },\n    p = null,\n    ms = null,\n",
+			"between lines of map entries":    "    m = {\n        \"k1\": 1, \"k2\": 2, \"k3\": 3,\n        # second row\n        \"a\": 1, \"b\": 2, \"c\": 3, \"d\": 4,\n        # third row\n        \"x\": 7, \"y\": 8, \"z\": 9,\n    },\n    p = null,\n    ms = null,\n",
+			"trailing and closing comments":   "    m = {\n        \"a\": 1, \"b\": 2, \"c\": 3, # trailing\n        \"d\": 4, \"e\": 5,\n        # before the brace\n    },\n    p = null,\n    ms = null,\n",
+			"struct literal":                  "    m = null,\n    p = {\n        # the point\n        x: 1, label: \"l\", w: 2.5, on: true,\n        # more\n        ys: [1, 2], z: 3,\n    },\n    ms = null,\n",
+			"array of maps":                   "    m = null,\n    p = null,\n    ms = [\n        # first pair\n        {\"a\": 1, \"b\": 2}, {\"c\": 3, \"d\": 4},\n        {\n            # inside\n            \"e\": 5, \"f\": 6, \"g\": 7,\n        },\n    ],\n",
+			"entries and map all on one line": "    # whole argument\n    m = {\"a\": 1, \"b\": 2, \"c\": 3}, p = null, ms = null,\n",
+		}
+		decl := "struct Pt(\n    int    x,\n    string label,\n    float  w,\n    bool   on,\n    int[]  ys,\n    int    z,\n)\n\nstage S(\n    in  map<int>   m,\n    in  Pt         p,\n    in  map<int>[] ms,\n    out int        r,\n    src comp       \"bin/s\",\n)\n\n"
+		for name, args := range srcs {
+			src := decl + "call S(\n" + args + ")\n"
+			pipe := decl + "pipeline P(\n    out int r,\n)\n{\n    call S(\n" + strings.ReplaceAll(args, "\n    ", "\n        ") + "    )\n\n    return (\n        r = S.r,\n    )\n}\n\ncall P()\n"
+			out["Format(comments: "+name+")"] = func() string {
+				a, err := syntax.Format(src, "c.mro", false, nil)
+				b, err2 := syntax.Format(pipe, "p.mro", false, nil)
+				return a + fmt.Sprint(" / ", err, "\n") + b + fmt.Sprint(" / ", err2)
+			}
+		}
+	}
 	// --- core, through exported API -------------------------------------------------------
 	if _, _, ast, err := syntax.ParseSourceBytes([]byte(c10ProvokeCoreSrc(n)), filepath.Join(dir, "core.mro"), nil, false); err != nil {
 		c.Res.note("core provocation program does not compile: %v", err)
